@@ -52,6 +52,36 @@ inductive ScanRes where
   | idx (i : Option Nat)
   deriving Repr, DecidableEq
 
+/-- a field of `struct VTable` (src/value/vtable.rs) -/
+inductive VtField where
+  | size | align | cloneFn | dropFn | eqFn
+  deriving Repr, DecidableEq
+
+inductive GenFn where
+  | clone | drop | eq
+  deriving Repr, DecidableEq
+
+inductive GenCond where
+  | needsClone | needsDrop
+  deriving Repr, DecidableEq
+
+/-- what `Lowerer::call_runtime` writes into one field of the vtable it
+    builds for a type parameter `ty_ref` of a runtime function -/
+inductive VtSlot where
+  /-- `layout_of(ty_ref).size()` -/
+  | layoutSize
+  /-- `layout_of(ty_ref).align()` -/
+  | layoutAlign
+  /-- the address of `::generated::<fn>_<type_id of ty_ref>`; with a
+      condition: that address if it holds, null otherwise -/
+  | generated (fn : GenFn) (cond : Option GenCond)
+  deriving Repr, DecidableEq
+
+/-- the slot written into field `f` -/
+def vtableSlot : List VtField → List VtSlot → VtField → Option VtSlot
+  | f :: fs, s :: ss, g => if f = g then some s else vtableSlot fs ss g
+  | _, _, _ => none
+
 def ScanHit.res : ScanHit → Nat → ScanRes
   | .found, _ => .bool true
   | .foundAt, i => .idx (some i)
